@@ -1,6 +1,7 @@
 package props
 
 import (
+	"errors"
 	"fmt"
 	"os"
 	"path/filepath"
@@ -59,6 +60,7 @@ var c07configs = []c07config{
 	{"os", nil, []string{"a", "."}}, {"os", nil, []string{".", "a"}}, {"os", nil, []string{".", "."}}, {"os", nil, []string{"a", ".", "b"}},
 	{"minimal", nil, []string{"a"}}, {"minimal", nil, []string{"a", "b"}},
 	{"custom", nil, []string{"a"}}, {"custom", nil, []string{"a", "b"}}, // a parent whose Rename reports failures as *PathError
+	{"partial-listing", nil, []string{"a"}}, {"partial-listing", nil, []string{"a", "b"}}, {"partial-listing", nil, []string{"."}}, // a parent whose listings break off after two entries, delivering those with the error
 	// views of a directory that does not exist (yet): legal for the generic view and for os.FS; everything through the view
 	// must equal the same call at zz/name on the parent (also creating the whole chain with MkdirAll)
 	{"mem", nil, []string{"zz"}}, {"mount", []string{"a"}, []string{"zz"}}, {"mount", []string{"a"}, []string{"a/zz"}}, {"minimal", nil, []string{"zz"}}, {"os", nil, []string{"zz"}}, {"custom", nil, []string{"zz", "b"}},
@@ -81,6 +83,59 @@ type openOnlyFS struct{ inner hackpadfs.FS }
 
 func (o openOnlyFS) Open(name string) (hackpadfs.File, error) { return o.inner.Open(name) }
 
+// partialListFS is a mem.FS whose directory handles deliver at most two entries of a listing and then fail, handing
+// out what they have together with the error (as os.ReadDir does when a directory read breaks off).
+type partialListFS struct{ *mem.FS }
+
+var errListingBroke = errors.New("directory read broke off")
+
+func (p partialListFS) Open(name string) (hackpadfs.File, error) {
+	f, err := p.FS.Open(name)
+	if err != nil {
+		return nil, err
+	}
+	return partialListFile{f}, nil
+}
+func (p partialListFS) OpenFile(name string, flag int, perm hackpadfs.FileMode) (hackpadfs.File, error) {
+	f, err := p.FS.OpenFile(name, flag, perm)
+	if err != nil {
+		return nil, err
+	}
+	return partialListFile{f}, nil
+}
+func (p partialListFS) ReadDir(name string) ([]hackpadfs.DirEntry, error) {
+	f, err := p.Open(name)
+	if err != nil {
+		return nil, err
+	}
+	defer func() { _ = f.Close() }()
+	return hackpadfs.ReadDirFile(f, -1)
+}
+
+type partialListFile struct{ hackpadfs.File }
+
+func (f partialListFile) ReadDir(n int) ([]hackpadfs.DirEntry, error) {
+	entries, err := hackpadfs.ReadDirFile(f.File, n)
+	sort.Slice(entries, func(i, j int) bool { return entries[i].Name() < entries[j].Name() })
+	if err == nil && len(entries) > 2 {
+		return entries[:2], &hackpadfs.PathError{Op: "readdir", Path: "?", Err: errListingBroke}
+	}
+	return entries, err
+}
+func (f partialListFile) Write(p []byte) (int, error) { return hackpadfs.WriteFile(f.File, p) }
+func (f partialListFile) Seek(off int64, whence int) (int64, error) {
+	return hackpadfs.SeekFile(f.File, off, whence)
+}
+func (f partialListFile) ReadAt(p []byte, off int64) (int, error) {
+	return hackpadfs.ReadAtFile(f.File, p, off)
+}
+func (f partialListFile) WriteAt(p []byte, off int64) (int, error) {
+	return hackpadfs.WriteAtFile(f.File, p, off)
+}
+func (f partialListFile) Truncate(size int64) error        { return hackpadfs.TruncateFile(f.File, size) }
+func (f partialListFile) Chmod(m hackpadfs.FileMode) error { return hackpadfs.ChmodFile(f.File, m) }
+func (f partialListFile) Sync() error                      { return hackpadfs.SyncFile(f.File) }
+
 type c07parent struct {
 	osRoot  string                  // os parents: the scratch directory that holds the parent's root "in" and a file outside it
 	fs      hackpadfs.FS            // the parent as the caller sees it
@@ -92,7 +147,7 @@ type c07parent struct {
 func newC07Parent(env *core.Env, cfg c07config) (*c07parent, error) {
 	p := &c07parent{parts: map[string]hackpadfs.FS{}, cleanup: func() {}}
 	switch cfg.Parent {
-	case "mem", "minimal", "custom":
+	case "mem", "minimal", "custom", "partial-listing":
 		m, _ := mem.NewFS()
 		p.fs, p.build = m, m
 		p.parts["self"] = m
@@ -101,6 +156,9 @@ func newC07Parent(env *core.Env, cfg c07config) (*c07parent, error) {
 		}
 		if cfg.Parent == "minimal" {
 			p.fs = openOnlyFS{m}
+		}
+		if cfg.Parent == "partial-listing" {
+			p.fs = partialListFS{m}
 		}
 	case "mount":
 		root, _ := mem.NewFS()
@@ -368,6 +426,11 @@ func c07run(env *core.Env, idx int) core.CaseResult {
 		}
 		if rv.Err != rd.Err {
 			res.Violate(sig("result:got="+rv.Err+",want="+rd.Err), fmt.Sprintf("[%s] %s through the view returned %s; %s on the parent returned %s", cfg, st, rv, sd, rd), wit)
+			break
+		}
+		if !rv.OK() && st.K == "ReadDir" && rv.Data != rd.Data {
+			// a listing that broke off delivers what it had together with the error, through the view as well
+			res.Violate(sig("partial-result"), fmt.Sprintf("[%s] %s failed on both sides (%s), but the view delivered %q with the error and the parent %q", cfg, st, rv.Err, rv.Data, rd.Data), wit)
 			break
 		}
 		if rv.OK() && st.P != "." && (rv.Data != rd.Data || rv.N != rd.N) {
